@@ -49,8 +49,18 @@ def _get_terminal_size():
     return _TERM[0]
 
 
-_it.get_terminal_size = _get_terminal_size
-_rr.get_terminal_size = _get_terminal_size
+# The library's modules take `get_terminal_size` from `term_image.utils` (the active terminal).  Only such a
+# binding is redirected to the controlled terminal; a module that binds anything else (e.g. shutil's, which
+# answers from COLUMNS/LINES or a fallback) is left alone, so its answer — made different from every controlled
+# size below — shows up in the frames.  What each module binds is also a generated constant.
+os.environ["COLUMNS"], os.environ["LINES"] = "77", "23"
+TERMSIZE_BINDING = {}
+for _mod, _name in ((_it, "render._iterator"), (_rr, "renderable._renderable")):
+    _fn = getattr(_mod, "get_terminal_size", None)
+    TERMSIZE_BINDING[_name] = getattr(_fn, "__module__", "?")
+    if TERMSIZE_BINDING[_name] in ("term_image.utils", "common.env"):
+        TERMSIZE_BINDING[_name] = "term_image.utils"
+        setattr(_mod, "get_terminal_size", _get_terminal_size)
 
 
 def set_term(w, h):
@@ -205,7 +215,11 @@ def mk_args(a):
 
 
 def mk_dur(d):
-    return FrameDuration.DYNAMIC if d == "D" else pyval(d, ints_only=True)
+    if d == "D":
+        return FrameDuration.DYNAMIC
+    d = pyval(d, ints_only=True)
+    # a fresh object every time (CPython shares small ints only): an equal duration is not the identical one
+    return int(str(d)) if type(d) is int else d
 
 
 def toks(x) -> str:
@@ -302,12 +316,17 @@ class RealRun:
         args = None if c["args"] is None else mk_args(c["args"])
         padding = mk_padding(c["padding"])
         try:
+            # `kw`: how loops/cache are handed over — 0 positional, 1 both by keyword, 2 loops positional + cache keyword
+            kw = c.get("kw", 0)
+            pos = () if kw == 1 else (loops,) if kw == 2 else (loops, cache)
+            kws = {"loops": loops, "cache": cache} if kw == 1 else {"cache": cache} if kw == 2 else {}
             if c.get("ctor", 0) == 0:
-                self.it = RenderIterator(r, args, padding, loops, cache)
+                self.it = RenderIterator(r, args, padding, *pos, **kws)
             else:
                 data = r._get_render_data_(iteration=True)
                 try:
-                    self.it = RenderIterator._from_render_data_(r, data, args, padding, loops, cache, finalize=bool(c.get("finalize", 1)))
+                    self.it = RenderIterator._from_render_data_(r, data, args, padding, *pos,
+                                                                finalize=bool(c.get("finalize", 1)), **kws)
                 except BaseException:
                     data.finalize()
                     raise
@@ -637,7 +656,7 @@ def gen_case(rng, tier, flavour):
         "term": term,
         "stream": rng.choice([0, 1, 2, 3, 5, 8]) if n is None else 0,
         "stop_at": None, "fail_at": None,
-        "ctor": rng.choice([0, 0, 1]), "finalize": rng.choice([0, 1]),
+        "ctor": rng.choice([0, 0, 1, 1]), "finalize": rng.choice([0, 1]), "kw": rng.choice([0, 1, 1, 2]),
         # constructed with FrameCount.POSTPONED, resolved by the `frame_count` property to `count`
         "postponed": rng.random() < 0.25,
     }
@@ -760,6 +779,8 @@ class C08(Property):
             f"def defaultLoops : Int := {int(sig['loops'].default)}\n"
             f"def defaultCache : Int := {int(sig['cache'].default)}\n"
             f"def defaultPadding : List Nat := [{', '.join(str(x) for x in pad.dimensions)}]\n"
+            f"def terminalSizeSource : List (String × String) := ["
+            + ", ".join(f'("{k}", "{v}")' for k, v in sorted(TERMSIZE_BINDING.items())) + "]\n"
             f"def dummyFrame : List Int := [{d.number}, {d.duration}, {d.render_size.width}, {d.render_size.height}]\n"
             f"def hAlign : List (String × Int) := {members(HAlign)}\n"
             f"def vAlign : List (String × Int) := {members(VAlign)}\n"
@@ -907,7 +928,7 @@ def shrink_history(c, ops, key):
                 else:
                     i += 1
     c = dict(c)
-    for k, v in (("postponed", False), ("rframe", 0), ("args", None), ("ctor", 0), ("padding", ["exact", 0, 0, 0, 0, 0]), ("dur", 7),
+    for k, v in (("postponed", False), ("kw", 0), ("rframe", 0), ("args", None), ("ctor", 0), ("padding", ["exact", 0, 0, 0, 0, 0]), ("dur", 7),
                  ("cache", ["b", 0]), ("loops", 1), ("stop_at", None), ("fail_at", None)):
         if c.get(k) != v:
             c2 = dict(c)
